@@ -266,6 +266,23 @@ func ruleC15c(c *Ctx, rule string) {
 				})
 				ok = all && complete && n > 0
 			}
+			// the new fields must be in place before the flush that builds the next memstore from rs.fields
+			var flushCalls []ssa.Instruction
+			for _, in := range instrs(pi) {
+				if cl, isC := in.(*ssa.Call); isC && cl.Call.StaticCallee() != nil && cl.Call.StaticCallee().Parent() == pi && typeStr(cl.Type()) == "*z.memstore" && l != nil && l.body[cl.Block()] {
+					// only the flush in the fieldUpdates case: the one reachable from the store or reaching it within the case
+					if instrReaches(st, cl, blockSet{l.header: true}) || instrReaches(cl, st, blockSet{l.header: true}) {
+						flushCalls = append(flushCalls, cl)
+					}
+				}
+			}
+			before := len(flushCalls) > 0
+			for _, fc := range flushCalls {
+				if !instrDominates(st, fc) {
+					before = false
+				}
+			}
+			c.check(rule, "fieldUpdates: the new fields are adopted before the forced flush", st.Pos(), before, "rs.fields = fields dominates the flush that creates the next memstore", "the row store flushes (and builds the next memstore from rs.fields) before adopting the new fields: with unflushed data at ALTER time the next memstore has the old layout and points inserted until the next flush lose the added fields")
 			c.check(rule, "fieldUpdates: a memstore with the new layout is installed before the next insert", st.Pos(), ok, "every path back to the select loop either flushed (new memstore from doProcessFlush) or calls newMemStore", "after a field change the row store can continue with a memstore built for the old fields: columns of later points land in the wrong positions")
 		}
 	}
